@@ -160,6 +160,8 @@ def work(item):
         return [ob("selftest:swapped-labels", "selftest", "holds" if hit else "error", what="" if hit else "mutant not flagged")]
     bps = m["bps"]
     Ls = [2] if (m["order"] or 2) > 16 else [tier(2, 3)]
+    if m.get("memory") and (m["order"] or 2) <= 4 and 3 not in Ls:
+        Ls = Ls + [3]          # schemes with memory: also an odd number of symbols per row (alternating constellations restart per row)
     try:
         for via in ([False, True] if m.get("registry") else [False]):
             for L in Ls:
